@@ -407,6 +407,19 @@ public:
         return vars_;
     }
 
+    // true for the zero polynomial and for a single term with all exponents
+    // zero; such polynomials are equal whatever their variables are
+    bool is_constant() const
+    {
+        if (poly_.dict_.size() > 1)
+            return false;
+        for (auto &p : poly_.dict_)
+            for (auto e : p.first)
+                if (e != 0)
+                    return false;
+        return true;
+    }
+
     bool __eq__(const Basic &o) const override
     {
         // TODO : fix for when vars are different, but there is an intersection
